@@ -208,8 +208,9 @@ class Run:
             r = s.check()
             m = s.model() if r == z3.sat else None
         self.stats.solver_s += time.time() - t0
-        if TRACE:
-            sys.stderr.write("[feas %s %.2fs depth=%d] %s\n" % (r, time.time() - t0, len(self.decisions), str(extra)[:150]))
+        if TRACE or time.time() - t0 > 20:
+            sys.stderr.write("[feas %s %.2fs depth=%d case=%s] %s\n" % (r, time.time() - t0, len(self.decisions), self.ex.case_label, str(extra)[:150]))
+            sys.stderr.flush()
         if r == z3.sat:
             return "sat", m
         if r == z3.unsat:
@@ -263,6 +264,8 @@ class Run:
         i = len(self.decisions)
         if i < len(self.prefix):
             d = self.prefix[i]
+            if not isinstance(d, bool):
+                raise RuntimeError("decision log out of step: expected a Boolean decision at %d, found %r" % (i, d))
             self.decisions.append(d)
             self._add(cond if d else z3.Not(cond))
             if self.model is not None and self._model_says(cond) is not d:
@@ -322,21 +325,37 @@ class Run:
                 return k
         return n - 1
 
+    def guided(self, compute):
+        """A value chosen with the help of the current model (solver-guided enumeration).  The choice is
+        recorded in the decision log so that re-executions of the same prefix take the same value: the
+        model found on a re-execution may differ, and the Boolean decisions that follow refer to this value."""
+        i = len(self.decisions)
+        if i < len(self.prefix):
+            rec = self.prefix[i]
+            if not (isinstance(rec, tuple) and rec[0] == "k"):
+                raise RuntimeError("decision log out of step: expected a recorded choice at %d, found %r" % (i, rec))
+            self.decisions.append(rec)
+            return rec[1]
+        if self.model is None:
+            r, m = self._check([])
+            if r != "sat":
+                if r == "unsat":
+                    self.stats.infeasible_ends += 1
+                    raise Infeasible()
+                self.stats.truncated += 1
+                raise Truncated()
+            self.model = m
+        k = compute(self.model)
+        self.decisions.append(("k", k))
+        return k
+
     def concretize(self, term, lo=None, hi=None):
         """Fork the path on the concrete value of an integer term (solver-guided enumeration)."""
         term = z3.simplify(term)
         if z3.is_int_value(term):
             return term.as_long()
         while True:
-            if self.model is None:
-                r, m = self._check([])
-                if r != "sat":
-                    if r == "unsat":
-                        raise Infeasible()
-                    self.stats.truncated += 1
-                    raise Truncated()
-                self.model = m
-            k = model_value(self.model, term)
+            k = self.guided(lambda m: model_value(m, term))
             if not isinstance(k, int):
                 raise RuntimeError("concretize: non-integer model value %r" % (k,))
             if self.branch(term == k):
@@ -384,8 +403,9 @@ class Run:
         for fid, reg in regions:
             t0 = time.time()
             r, m = self.check_sat(extra + reg, logic=logic, rlimit=rlimit)
-            if TRACE:
-                sys.stderr.write("[prove %s %s %.2fs]\n" % (name, r, time.time() - t0))
+            if TRACE or time.time() - t0 > 20:
+                sys.stderr.write("[prove %s %s %.2fs case=%s]\n" % (name, r, time.time() - t0, self.ex.case_label))
+                sys.stderr.flush()
             if r == "unsat":
                 self.stats.ob_unsat += 1
                 d["unsat"] += 1
